@@ -107,6 +107,8 @@ def _map(f, dtype=None):
             return SeriesVal(g(interp, x.arr), x.name)
         if isinstance(x, (A.Arr, Ref, list, tuple)):
             return A.unop(f, _arr(x, interp), dtype=dtype)
+        if isinstance(x, A.Masked):
+            return A.ew(f, x, dtype=dtype)
         return f(x)
     return g
 
@@ -671,7 +673,7 @@ class Lib:
             return self.arr_method(interp, recv, meth, args, kwargs)
         if kind == "masked":
             if meth == "sum":
-                return A.reduce_sum(recv)
+                return A.reduce_sum(recv, kwargs.get("axis", args[0] if args else None))
             if meth == "mean":
                 return A.reduce_mean(recv)
         if kind == "scalar":
